@@ -81,15 +81,15 @@ CLAIMS = {
     },
     'C04': {
         'text': 'Theorems in Coq about the interpreter model: bind_args gives parameter i its positional argument, null when missing, and for a trailing "..." parameter a '
-                'FRESH array of the remaining arguments (empty when none), for any parameter list with pairwise different names, any argument list, any heap; surplus '
+                'FRESH array of the remaining arguments (empty when none), for ANY parameter list (a repeated name holds what its last position receives), any argument list, any heap; surplus '
                 'arguments are ignored; reads see locals before globals; a call resolves locals, then globals, then the built-ins only in expression mode; inside a call an '
                 'assignment updates the locals and leaves the globals alone, at top level it writes the globals object; library injection (a fold over the GENERATED list of '
                 'SCRIPT_FUNCTIONS names) preserves every caller-supplied binding and binds every other library name to its library function; a function statement writes '
                 'globals[name] unconditionally (C08). The model is run inside Coq against the implementation on generated programs whose parameter, local, global, host, '
                 'library and built-in names collide on purpose, called directly, through variables, systemPartial and arraySort callbacks, under host configurations '
                 'shadowing library names; an independent reference interpreter predicts result, log and final globals.',
-        'note': 'trusted: Coq kernel/vm_compute; transliteration validated by the correspondence (cases using systemPartial/arraySort/JSON text are declined by the model and '
-                'covered by the reference oracle only - counted in the evidence); bind_args theorem assumes NoDup parameter names (duplicates: later wins, tested only). No axioms.',
+        'note': 'trusted: Coq kernel/vm_compute; transliteration validated by the correspondence (systemPartial closures and arraySort callbacks ARE modelled: Model/LibPartial.v, Model/LibCall.v; cases needing the JSON text of a '
+                'container are declined by the model and covered by the reference oracle only - counted in the evidence). No axioms.',
         'ref': 'DESIGN.md section 5 C04',
     },
     'C01': {
